@@ -33,7 +33,8 @@ type Fault struct {
 	PathSub string        `json:"path_sub"` // substring of the path, "" = any
 	Nth     int           `json:"nth"`      // 0-based occurrence among matching calls; -1 = every
 	Errno   syscall.Errno `json:"errno"`
-	Short   bool          `json:"short"` // for Write/WriteAt: write half and report ENOSPC
+	Short   bool          `json:"short"`  // for Write/WriteAt: write half and report ENOSPC
+	AtSeq   int           `json:"at_seq"` // if > 0: match the call with this global sequence number (1-based) instead
 	seen    int
 }
 
@@ -85,6 +86,13 @@ func pre(op, path, arg string) (ev *Event, inj *Fault) {
 	e.Seq = p.seq
 	p.seq++
 	for _, f := range p.Faults {
+		if f.AtSeq > 0 {
+			if f.AtSeq == e.Seq+1 {
+				inj = f
+				break
+			}
+			continue
+		}
 		if f.Op != "" && f.Op != op {
 			continue
 		}
